@@ -16,7 +16,7 @@ import GluonModel.Proofs.Comments
 
 namespace GluonModel.Props.C10
 open GluonModel.Comments
-open GluonModel.Proofs.Comments (AllWs Recon ReconBack nonWs)
+open GluonModel.Proofs.Comments (AllWs Recon ReconBack nonWs ItemShape)
 
 /-- `CommentIter::next` never panics: no slice index is out of range and the `unwrap` on
     `lines().next()` cannot fire — for every remaining text. -/
@@ -50,6 +50,12 @@ theorem forward_total_and_preserves (s : List Char) :
 theorem backward_total_and_preserves (s : List Char) :
     ∃ items rest, backward s = .done items rest ∧ ReconBack s items rest :=
   Proofs.Comments.drain_nextBack (s.length + 1) s (Nat.lt_succ_self _)
+
+/-- Every item the forward iterator yields is a blank-line marker `""`, a `//` (not `///`)
+    comment without a newline, or a `/* … */` comment — never a piece of code. -/
+theorem forward_items_are_comments (s : List Char) (items : List (List Char)) (rest : List Char)
+    (h : forward s = .done items rest) : ∀ it ∈ items, ItemShape it :=
+  Proofs.Comments.drain_next_shape _ s items rest h
 
 /-- Corollary: the non-whitespace characters of the text are those of the yielded items followed
     by those of the unconsumed rest, in order — no comment character is lost or invented. -/
